@@ -171,3 +171,75 @@ Example c16_keep_all_nonvacuous :
   exists d cn, epf P_all_ep /\ klb P_all_ep = false /\ reach1 P_all_ep E d cn /\ seen_last d = 1 /\
                fs_get (Ckpt KO (Some 1)) (files d) = Some 2%Z.
 Proof. exact nonvacuous_keep_all. Qed.
+
+(* ---- the tie to the source text ----------------------------------------------------------
+   PV.Gen.C16Src is regenerated from /repo/src/pydrobert/torch/training.py on every run
+   (harness/py2coq/translate.py): get_last_epoch, get_best_epoch and two blocks of update_for_epoch
+   (`if epoch is None: ...; last_best = ...` and the final `if self.state_dir is not None: ...`
+   statement with the guards, save_info_first, try/except and the clean-up set arithmetic).
+   PV.MiniPy.Interp is the semantics of the translated subset, SrcRun.ext16 the meaning of the calls
+   that leave it (what it assumes is listed at the top of SrcRun.v).  SrcRun.src_update_ops interprets
+   those terms for one call of update_for_epoch and decodes the emitted events into Model.fsop. *)
+From PV Require MiniPy.Syntax MiniPy.Interp Gen.C16Src C16.SrcRun C16.TieExec C16.Tie.
+
+(* every retention mode, every combination of name formats, every cache, disk, metric pair and
+   removal-order oracle that ranks the (at most four) paths of the clean-up set: the interpreted
+   source emits exactly the model's file-system operations, in the same order, returns the same
+   row, and raises ValueError (before any operation) exactly when the model does *)
+Theorem c16_source_update_is_model : forall P d c tr va cn v ro,
+  SrcRun.covers ro (SrcRun.cl_paths P c) = true ->
+  SrcRun.src_update_ops P d c tr va cn v ro = Some (update_ops P d c tr va cn v ro).
+Proof. exact Tie.src_update_tie. Qed.
+Print Assumptions c16_source_update_is_model.
+
+(* both formats of the same kind (both with {epoch} - the case of the crash-safety theorems above -
+   or both without): no hypothesis on the oracle *)
+Theorem c16_source_update_is_model_same_fmt : forall P d c tr va cn v ro,
+  ep_m P = ep_o P ->
+  SrcRun.src_update_ops P d c tr va cn v ro = Some (update_ops P d c tr va cn v ro).
+Proof. exact Tie.src_update_tie_same_fmt. Qed.
+Print Assumptions c16_source_update_is_model_same_fmt.
+
+(* no hypothesis at all: the source is update_ops_fd = Model.update_ops with the clean-up set built
+   keeping first instead of last occurrences (the two differ only in the removal order of paths the
+   oracle does not rank, and only when exactly one format has {epoch}) *)
+Theorem c16_source_update_any_oracle : forall P d c tr va cn v ro,
+  SrcRun.src_update_ops P d c tr va cn v ro = Some (SrcRun.update_ops_fd P d c tr va cn v ro).
+Proof. exact TieExec.src_update_fd. Qed.
+Print Assumptions c16_source_update_any_oracle.
+
+(* whole runs (training loop, crashes, restarts) with the interpreted source in place of
+   Model.update_ops are Model.run: every theorem above about [run] / [reach] is a theorem about
+   the source's file-operation logic *)
+Theorem c16_source_run_is_model_same_fmt : forall P metrics ros crashes,
+  ep_m P = ep_o P ->
+  SrcRun.src_run P metrics ros crashes = Some (run P metrics ros crashes).
+Proof. exact Tie.src_run_tie_same_fmt. Qed.
+Print Assumptions c16_source_run_is_model_same_fmt.
+
+(* get_best_epoch (the for loop over cache_hist.values() with the dummy epoch 0 first) is best_epoch *)
+Theorem c16_source_best_epoch_is_model : forall P d cn ro c b,
+  exists st, SrcRun.run_best_epoch P d cn ro c b = Interp.Ok (SrcRun.vnat (best_epoch b c)) st.
+Proof. exact Tie.best_epoch_src. Qed.
+Print Assumptions c16_source_best_epoch_is_model.
+
+(* get_last_epoch (max over the keys of cache_hist) is last_epoch *)
+Theorem c16_source_last_epoch_is_model : forall P d cn ro c,
+  exists st, SrcRun.run_last_epoch P d cn ro c = Interp.Ok (SrcRun.vnat (last_epoch c)) st.
+Proof. exact Tie.last_epoch_src. Qed.
+Print Assumptions c16_source_last_epoch_is_model.
+
+(* composed with c16_update_appends_one_row: a statement about the translated source alone *)
+Theorem c16_source_update_appends_one_row : forall P d c tr va cn v ro ops r,
+  SrcRun.src_update_ops P d c tr va cn v ro = Some (Some (ops, r)) ->
+  r = mkRow (S (last_epoch c)) tr va v /\ flat_map appended ops = [r].
+Proof. exact Tie.source_update_appends. Qed.
+Print Assumptions c16_source_update_appends_one_row.
+
+Example c16_source_nonvacuous :
+  SrcRun.covers Tie.nv_ro (SrcRun.cl_paths Tie.nv_P Tie.nv_cache) = true /\
+  exists ops r,
+    SrcRun.src_update_ops Tie.nv_P Tie.nv_disk Tie.nv_cache 3 3 2 3 Tie.nv_ro = Some (Some (ops, r)) /\
+    map code_of ops = [TMk; TFill; TMk; TFill; TRep (Ckpt KM (Some 3)); TRep (Ckpt KO (Some 3)); TApp;
+                       TRem (Ckpt KO (Some 2)); TRem (Ckpt KM (Some 2))].
+Proof. exact Tie.source_nonvacuous. Qed.
